@@ -34,7 +34,8 @@ class _Ev:
         self.__dict__.update(kw)
 
 
-_SESSION = {"script": [], "rec": None, "exc": None, "obj": None, "enum": False}
+_SESSION = {"script": [], "rec": None, "exc": None, "obj": None, "enum": False, "owner": None, "conn": {}, "menu": {}, "root": None,
+            "closed_via": None, "gui": None}
 
 
 def _snap(o):
@@ -53,17 +54,43 @@ def _button(code):
     return code
 
 
+def _dispatch(o, name, ev, direct):
+    """Deliver an event the way the canvas does: to the callbacks the REAL _initialize_gui registered with mpl_connect
+    (falls back to the handler method when the dialog was built by the minimal stub)."""
+    cbs = _SESSION["conn"].get(name)
+    if cbs:
+        for cb in list(cbs):
+            cb(ev)
+    else:
+        direct(ev)
+
+
 def _apply(o, a, phys):
     """Apply one scripted action to the real handlers; returns the exception kind if the handler raised."""
     k = a[0]
     try:
         if k == "kd":
-            o.on_key_press(_Ev(key="shift", name="key_press_event", inaxes=o.ax2, xdata=None, ydata=None))
+            _dispatch(o, "key_press_event", _Ev(key="shift", name="key_press_event", inaxes=o.ax2, xdata=None, ydata=None), o.on_key_press)
         elif k == "ku":
-            o.on_key_release(_Ev(key="shift", name="key_release_event", inaxes=o.ax2, xdata=None, ydata=None))
+            _dispatch(o, "key_release_event", _Ev(key="shift", name="key_release_event", inaxes=o.ax2, xdata=None, ydata=None), o.on_key_release)
         elif k == "ko":
             ev = _Ev(key=a[1], name="key_%s_event" % a[2], inaxes=o.ax2, xdata=None, ydata=None)
-            (o.on_key_press if a[2] == "press" else o.on_key_release)(ev)
+            _dispatch(o, "key_%s_event" % a[2], ev, o.on_key_press if a[2] == "press" else o.on_key_release)
+        elif k == "m":  # a menu entry of the dialog (show / hide unstable poles, help): selects nothing
+            cmd = _SESSION["menu"].get(a[1])
+            if cmd is None:
+                return "NoSuchMenuEntry"
+            cmd()
+        elif k == "close":  # the user closes the window: the callback registered for WM_DELETE_WINDOW
+            cb = getattr(_SESSION["root"], "protocols", {}).get("WM_DELETE_WINDOW")
+            if cb is not None:
+                _SESSION["closed_via"] = "WM_DELETE_WINDOW"
+                cb()
+            elif hasattr(o, "on_closing"):
+                _SESSION["closed_via"] = "on_closing"
+                o.on_closing()
+            else:
+                _SESSION["closed_via"] = "none"
         else:
             mods = frozenset(["shift"]) if phys else frozenset()
             if k == "c":
@@ -72,26 +99,51 @@ def _apply(o, a, phys):
             else:  # click outside the axes
                 ev = _Ev(button=_button(a[1]), xdata=None, ydata=None, inaxes=None, key="shift" if phys else None,
                          modifiers=mods, dblclick=False, name="button_press_event", x=1, y=1, step=0)
-            if o.plot == "FDD":
-                o.on_click_FDD(ev)
-            else:
-                o.on_click_SSI(ev, o.plot)
+            _dispatch(o, "button_press_event", ev, o.on_click_FDD if o.plot == "FDD" else (lambda e: o.on_click_SSI(e, o.plot)))
         return None
     except Exception as e:  # Matplotlib's callback registry swallows handler exceptions too
         return type(e).__name__
 
 
-class _FakeRoot:
-    """Stands for tkinter.Tk(): mainloop() plays the script on the real handlers."""
+CLOSE = ("close",)
 
-    def __init__(self, owner):
-        self.owner = owner
 
-    def mainloop(self):
-        o = self.owner
+class _FakeWidget:
+    """Stands for any Tk widget / Matplotlib GUI object: accepts every call, chains."""
+
+    def __init__(self, *a, **k):
+        pass
+
+    def __getattr__(self, name):
+        if name.startswith("__"):
+            raise AttributeError(name)
+        return lambda *a, **k: _FakeWidget()
+
+
+class _FakeRoot(_FakeWidget):
+    """Stands for tkinter.Tk(): records protocol() registrations; mainloop() plays the script on the real handlers and then
+    CLOSES the window the way a user does - through the callback the dialog registered for WM_DELETE_WINDOW."""
+
+    def __init__(self, *a, **k):
+        self.protocols = {}
+        self.calls = []
+        _SESSION["root"] = self
+
+    def protocol(self, name=None, func=None):
+        if func is not None:
+            self.protocols[name] = func
+
+    def quit(self):
+        self.calls.append("quit")
+
+    def destroy(self):
+        self.calls.append("destroy")
+
+    def mainloop(self, n=0):
+        o = _SESSION["owner"]
         rec, exc = [_snap(o)], []
         phys = False
-        for a in _SESSION["script"]:
+        for a in tuple(_SESSION["script"]) + (CLOSE,):
             if a[0] == "kd":
                 phys = True
             elif a[0] == "ku":
@@ -100,52 +152,112 @@ class _FakeRoot:
             rec.append(_snap(o))
         _SESSION.update(rec=rec, exc=exc, obj=o)
 
+
+class _FakeMenu(_FakeWidget):
+    def add_command(self, label=None, command=None, **k):
+        if label is not None and command is not None:
+            _SESSION["menu"][label] = command
+
+
+class _FakeCanvas(_FakeWidget):
+    def mpl_connect(self, name, cb):
+        _SESSION["conn"].setdefault(name, []).append(cb)
+        return len(_SESSION["conn"][name])
+
+
+class _FakeFigure(_FakeWidget):
+    """draw=False: stands for matplotlib.figure.Figure (nothing is drawn, plot_stab / plot_svPSD are stubbed)."""
+
+    def __init__(self, *a, **k):
+        self.canvas = _FakeCanvas()
+
+
+class _FakeCanvasTkAgg(_FakeCanvas):
+    """Stands for FigureCanvasTkAgg(fig, root).  With a real Figure (draw=True) it installs an Agg canvas and records the
+    mpl_connect registrations made on it."""
+
+    def __init__(self, fig=None, master=None, **k):
+        if not isinstance(fig, _FakeFigure) and fig is not None:
+            from matplotlib.backends.backend_agg import FigureCanvasAgg
+
+            FigureCanvasAgg(fig)
+            real = fig.canvas.mpl_connect
+
+            def connect(name, cb):
+                _SESSION["conn"].setdefault(name, []).append(cb)
+                return real(name, cb)
+
+            fig.canvas.mpl_connect = connect
+
+
+class _FakeTk:
+    """Stands for the tkinter module inside pyoma2.support.sel_from_plot."""
+
+    Tk = _FakeRoot
+    Menu = _FakeMenu
+    messagebox = _FakeWidget()
+
     def __getattr__(self, name):
-        return lambda *a, **k: None
+        return _FakeWidget
 
 
 _ORIG = {}
 
 
-def _gui_nodraw(self):
-    self.root = _FakeRoot(self)
-    self.fig = None
-    self.ax2 = None
+def _gui_real(self):
+    """The REAL SelFromPlot._initialize_gui, run against stand-ins for tkinter / FigureCanvasTkAgg / NavigationToolbar2Tk (and
+    for Figure when nothing is drawn): menus, mpl_connect registrations and the WM_DELETE_WINDOW protocol are the dialog's own."""
+    _SESSION.update(owner=self, conn={}, menu={}, root=None, closed_via=None, gui="real")
+    try:
+        _ORIG["gui"](self)
+        if not isinstance(getattr(self, "root", None), _FakeRoot):
+            raise RuntimeError("dialog did not create its root through tkinter.Tk()")
+    except Exception:
+        # a differently organised GUI construction: minimal stub, events go straight to the handler methods
+        _SESSION.update(conn={}, menu={}, gui="stub")
+        self.root = _FakeRoot()
+        if _SESSION.get("draw"):
+            from matplotlib.backends.backend_agg import FigureCanvasAgg
 
-
-def _gui_draw(self):
-    from matplotlib.backends.backend_agg import FigureCanvasAgg
-    from matplotlib.figure import Figure
-
-    self.root = _FakeRoot(self)
-    self.fig = Figure(figsize=(5, 3))
-    FigureCanvasAgg(self.fig)
-    self.ax2 = self.fig.add_subplot(111)
+            self.fig = _ORIG["Figure"](figsize=(5, 3))
+            FigureCanvasAgg(self.fig)
+            self.ax2 = self.fig.add_subplot(111)
+        else:
+            self.fig, self.ax2 = _FakeFigure(), _FakeWidget()
 
 
 def set_mode(draw):
-    """draw=False: GUI construction and redrawing stubbed; draw=True: the real plot_stab / plot_svPSD on an Agg canvas."""
-    from pyoma2.support.sel_from_plot import SelFromPlot
+    """draw=False: nothing is drawn (Figure stand-in, plot_stab / plot_svPSD stubbed); draw=True: a real Figure on an Agg canvas
+    and the real plot_stab / plot_svPSD.  In both modes the dialog is built by its own _initialize_gui."""
+    import pyoma2.support.sel_from_plot as M
 
+    SelFromPlot = M.SelFromPlot
     if not _ORIG:
-        _ORIG.update(gui=SelFromPlot._initialize_gui, ps=SelFromPlot.plot_stab, pv=SelFromPlot.plot_svPSD)
+        _ORIG.update(gui=SelFromPlot._initialize_gui, ps=SelFromPlot.plot_stab, pv=SelFromPlot.plot_svPSD, tk=M.tk, Figure=M.Figure,
+                     canvas=M.FigureCanvasTkAgg, toolbar=M.NavigationToolbar2Tk)
+    _SESSION["draw"] = bool(draw)
+    SelFromPlot._initialize_gui = _gui_real
+    M.tk = _FakeTk()
+    M.FigureCanvasTkAgg = _FakeCanvasTkAgg
+    M.NavigationToolbar2Tk = _FakeWidget
     if draw:
-        SelFromPlot._initialize_gui = _gui_draw
+        M.Figure = _ORIG["Figure"]
         SelFromPlot.plot_stab = _ORIG["ps"]
         SelFromPlot.plot_svPSD = _ORIG["pv"]
     else:
-        SelFromPlot._initialize_gui = _gui_nodraw
+        M.Figure = _FakeFigure
         SelFromPlot.plot_stab = lambda self, *a, **k: None
         SelFromPlot.plot_svPSD = lambda self, *a, **k: None
 
 
 def restore():
-    from pyoma2.support.sel_from_plot import SelFromPlot
+    import pyoma2.support.sel_from_plot as M
 
     if _ORIG:
-        SelFromPlot._initialize_gui = _ORIG["gui"]
-        SelFromPlot.plot_stab = _ORIG["ps"]
-        SelFromPlot.plot_svPSD = _ORIG["pv"]
+        M.SelFromPlot._initialize_gui = _ORIG["gui"]
+        M.SelFromPlot.plot_stab = _ORIG["ps"]
+        M.SelFromPlot.plot_svPSD = _ORIG["pv"]
+        M.tk, M.Figure, M.FigureCanvasTkAgg, M.NavigationToolbar2Tk = _ORIG["tk"], _ORIG["Figure"], _ORIG["canvas"], _ORIG["toolbar"]
 
 
 def drive(algo, plot, script, enum=False, freqlim=None):
@@ -282,6 +394,9 @@ def oracle_step(T, st, a, st2):
         if sum((c1 - c2).values()) != 1 or (c2 - c1) or len(sel2) != len(sel) - 1:
             return ("deselect-one", "a deselecting click did not remove exactly one selected pair: %s -> %s" % (fmt_sel(sel), fmt_sel(sel2)))
         return None
+    if k == "close" and c1 != c2:
+        return ("close", "closing the dialog changed the selection that is handed on: %s selected when the window was closed, %s handed on"
+                % (fmt_sel(sel), fmt_sel(sel2)))
     if not (k == "c" and sh and a[1] in (1, 2, 3)):
         if c1 != c2:
             return ("noop-changed", "an action that selects/deselects nothing (key, click without the modifier, other button, click "
@@ -336,7 +451,7 @@ def coq_action(a):
         return "KeyDown"
     if k == "ku":
         return "KeyUp"
-    if k == "ko":
+    if k in ("ko", "m", "close"):  # other key, menu entry, closing the window: no selecting action
         return "KeyOther"
     if k == "c":
         return "(Click %s %s %s)" % (BTN.get(a[1], "BOther"), coq_q(a[2]), coq_q(a[3]))
@@ -367,6 +482,10 @@ class Store:
     def add_trace(self, script, rec, result):
         """Oracle on every step + registration for the Coq checker.  Returns the final state, or None if malformed."""
         ctx = self.ctx
+        script = tuple(tuple(a) for a in script)
+        closed = len(rec) == len(script) + 2
+        if closed:  # the session was ended through the dialog's close handler (last snapshot = what is handed on)
+            script = script + (CLOSE,)
         try:
             states = [to_state(s) for s in rec]
         except BadState as e:
@@ -383,8 +502,8 @@ class Store:
             if bad:
                 self.bad.add(key)
                 ctx.fail("oracle", "SelFromPlot (%s): %s" % (self.variant, bad[1]), self.case(script[: i + 1]), key="C16:%s:%s" % (self.variant, bad[0]))
-        fin = states[-1]
-        # the dialog's result attribute = the two lists (FDD: the frequencies)
+        fin = states[-2] if closed else states[-1]  # the selection the user left when closing the window
+        # the dialog's result attribute (read after the close handler has run) = the two lists (FDD: the frequencies)
         ok = isinstance(result, tuple) and len(result) == 2
         if ok:
             try:
@@ -395,7 +514,7 @@ class Store:
             except Exception:
                 ok = False
         if not ok:
-            ctx.fail("oracle", "SelFromPlot (%s).result is not the selection left by the last event" % self.variant, self.case(script), key="C16:%s:result" % self.variant)
+            ctx.fail("oracle", "SelFromPlot (%s).result (read after the window was closed) is not the selection left by the last event" % self.variant, self.case(script), key="C16:%s:result" % self.variant)
         return fin
 
     def exprs(self, chunk=200):
@@ -453,6 +572,7 @@ def evaluate(ctx, stores):
 # generators
 # =====================================================================================================================
 ENUM_SSI = [[3.0, 10.0, NAN], [NAN, 4.0, 5.0], [12.0, NAN, 11.0], [7.0, 1.5, 8.25]]  # 4 poles x 3 orders, distinct, with NaNs
+ENUM_TIES = [[4.0, 10.0, 4.0], [NAN, 5.0, 9.5], [9.5, NAN, NAN], [7.0, 1.5, 12.0]]  # 4.0 and 9.5 Hz at orders 0 AND 2
 ENUM_FDD = [0.0, 0.75, 1.5, 2.25, 3.0, 3.75, 4.5]
 
 
@@ -627,6 +747,38 @@ def edge_histories(rng, variant, xs, ys):
     return out
 
 
+def stable_base(rng):
+    """A stabilisation table of perfectly stable poles: row r holds the SAME frequency value at every order where it is retained
+    (exact ties across orders); sometimes two rows share a frequency (exact tie within one order, e.g. different damping).
+    Returns (table, histories): each history selects at least two poles of equal frequency at different orders."""
+    nrow, ncol = rng.randint(3, 5), rng.randint(3, 6)
+    if nrow == ncol:
+        ncol += 1
+    fr = [v / 8.0 for v in sorted(rng.sample(range(8, 200), nrow))]
+    if rng.random() < 0.3:
+        fr[1] = fr[0]  # two rows with the same frequency
+    A = np.array([[fr[r] if rng.random() < 0.75 else NAN for _ in range(ncol)] for r in range(nrow)])
+    r0 = rng.randrange(nrow)
+    c0, c1 = rng.sample(range(ncol), 2)
+    A[r0, c0] = A[r0, c1] = fr[r0]
+    cells = [(r, c) for r in range(nrow) for c in range(ncol) if not np.isnan(A[r, c])]
+    hs = []
+    for _ in range(3):
+        extra = rng.sample(cells, min(len(cells), rng.randint(1, 4)))
+        picks = [(r0, c0), (r0, c1)] + extra
+        rng.shuffle(picks)
+        h = [("kd",)] + [("c", 1, float(A[r, c]) + rng.choice([0.0, 0.0, 0.0625, -0.0625]), c + rng.choice([0.0, 0.25, -0.25])) for r, c in picks]
+        q = rng.random()
+        if q < 0.3:
+            h.append(("c", 2, float(rng.choice(fr)), 0.0))
+        elif q < 0.45:
+            h += [("c", 3, 0.0, 0.0), ("c", 1, float(fr[r0]), float(c0))]
+        elif q < 0.55:
+            h.append(("ku",))
+        hs.append(tuple(h))
+    return A, hs
+
+
 def dy(rng, lo, hi, den=8):
     return rng.randint(int(lo * den), int(hi * den)) / float(den)
 
@@ -670,6 +822,8 @@ def random_action(rng, variant, A, sel_hint):
         return ("ko", rng.choice(["control", "a", "alt", "shift+a", "escape"]), rng.choice(["press", "release"]))
     if r < 0.25:
         return ("co", rng.choice([1, 2, 3, 8]))
+    if r < 0.28 and variant != "FDD":  # a menu entry of the stabilisation-chart dialog
+        return ("m", rng.choice(["Show unstable poles", "Hide unstable poles", "Help"]))
     b = rng.choice([1] * 11 + [3] * 3 + [2] * 5 + [8, 9])
     if variant == "FDD":
         pool = [float(v) for v in A]
@@ -903,7 +1057,7 @@ def _run(ctx):
     for fname, c in load_corpus(ctx):
         variant = c["variant"]
         tab = _tab_from_json(c)
-        script = tuple(tuple(a) for a in c["actions"])
+        script = tuple(tuple(a) for a in c["actions"] if a[0] != "close")  # every session is closed by the harness anyway
         st = Store(ctx, variant, tab, "corpus:" + fname, shape=c.get("shape"), freqlim=c.get("freqlim"), ordlim=c.get("ordlim"))
         stores.append(st)
         ctx.count(dict(corpus=fname, s=script))
@@ -931,6 +1085,9 @@ def _run(ctx):
     oplan = [("FDD", ENUM_FDD, alphabet("FDD", True), ctx.n(3, 4), "small", (1.0, 3.3125), None),
              ("SSI", ENUM_SSI, alphabet("SSI", True), ctx.n(2, 3), "small", (4.25, 9.0), (1, 1)),
              ("pLSCF", ENUM_SSI, alphabet("pLSCF", True), ctx.n(2, 3), "small", (4.25, 9.0), (1, 1))]
+    # a table whose orders 0 and 2 hold the same frequency values (4.0 and 9.5): the alphabet's picks select both
+    for variant in ("SSI", "pLSCF"):
+        stores.append(enumerate_sequences(ctx, variant, ENUM_TIES, alphabet(variant, True), ctx.n(3, 4), "ties-across-orders", maxlen_populated=0))
     for variant, tab, letters, maxlen, tag, fl, ol in oplan:
         stores.append(enumerate_sequences(ctx, variant, tab, letters, maxlen, tag, maxlen_populated=maxlen - 1, freqlim=fl, ordlim=ol))
 
@@ -957,6 +1114,21 @@ def _run(ctx):
                 ctx.count(dict(v=variant, limits=[fl, ol], table=jsonable(st.T.raw), s=script), nontrivial=any(len(x[1]) > 0 for x in rec))
                 nedge += 1
     ctx.extra["display_limit_histories"] = nedge
+
+    # ---- 2t. exact frequency ties: perfectly stable poles (the same frequency value at several orders), both selected, session
+    #          closed through the dialog's own close handler, hand-over through the real classes
+    for variant in ("SSI", "pLSCF"):
+        for t in range(ctx.n(30, 150)):
+            A, hs = stable_base(rng)
+            st = Store(ctx, variant, A, "stable-poles", shape=A.shape)
+            stores.append(st)
+            inject(algs[variant], A)
+            for i, script in enumerate(hs):
+                handover(ctx, st, ss, variant, variant, script, rng.choice([None, 0.0, 1.0 / 64]), hmeta, enum=bool(i % 2))
+                rec = _SESSION["rec"] or []
+                ctx.count(dict(v=variant, stable=True, table=jsonable(st.T.raw), s=script), nontrivial=any(len(x[1]) > 0 for x in rec))
+                ctx.hist("session closed via", _SESSION.get("closed_via"))
+                ctx.hist("dialog built by", _SESSION.get("gui"))
 
     # ---- 2b. structured stream: selections of 3..6 entries whose orders repeat non-adjacently in frequency order (and equal
     #          frequencies at different orders), then every single deselect-nearest / deselect-one, then more picks
